@@ -2,6 +2,7 @@
 # tools/mut.sh <file-in-repo> <python-replace-old> <python-replace-new> <check ids...>
 # applies a textual mutation to /repo, runs the checks (quick), restores /repo.
 f="$1"; old="$2"; new="$3"; shift 3
+rm -rf /verif/build/evidence.bak /verif/build/replays.bak; cp -r /verif/evidence /verif/build/evidence.bak; cp -r /verif/replays /verif/build/replays.bak 2>/dev/null
 cd /repo || exit 2
 python3 - "$f" "$old" "$new" <<'PY'
 import sys
@@ -16,3 +17,4 @@ for id in "$@"; do
   (cd /verif && timeout 900 ./check $id quick 2>&1 | grep -E "^VIOLATION|^KNOWN|^INCONCL|^C[0-9]+ quick|CROSSCHECK" | cut -c1-220)
 done
 git checkout -- .
+rm -rf /verif/evidence /verif/replays; mv /verif/build/evidence.bak /verif/evidence; mv /verif/build/replays.bak /verif/replays 2>/dev/null; true
